@@ -677,7 +677,8 @@ func builtinSplice(args ...Object) (Object, error) {
 		}
 	}
 	// if count of to be deleted items is bigger than expected, truncate it
-	if startIdx+delCount > arrayLen {
+	// (compared this way round: startIdx+delCount can overflow)
+	if delCount > arrayLen-startIdx {
 		delCount = arrayLen - startIdx
 	}
 	// delete items
